@@ -185,7 +185,13 @@ public:
          and is_nothrow_constructible_v<detail::variant_alternative_selector_t<T, Ts...>, T>)
     ) -> variant&
     {
-        emplace<detail::variant_alternative_selector_t<T, Ts...>>(etl::forward<T>(t));
+        using alternative_type = detail::variant_alternative_selector_t<T, Ts...>;
+        constexpr auto alternative_index = meta::index_of_v<alternative_type, meta::list<Ts...>>;
+        if (index() == alternative_index) {
+            (*this)[index_v<alternative_index>] = etl::forward<T>(t);
+        } else {
+            emplace<alternative_type>(etl::forward<T>(t));
+        }
         return *this;
     }
 
